@@ -260,6 +260,26 @@ def call_fn_value(ex, st, f, argv):
         yield from ex.run_body(st, b, list(argv))
 
 
+def m_map_or(ex, st, callee, args, dest_ty):
+    """Option::map_or(opt, default, f) / Result::map_or"""
+    v, dflt, f = args
+    good, goodidx = ("Some", 1) if ("Some" in v.alts or "None" in v.alts) else ("Ok", 0)
+    for st2 in ex.branch(st, v.disc != goodidx):
+        yield st2, dflt
+    if good in v.alts:
+        for st2 in ex.branch(st, v.disc == goodidx):
+            for o in call_fn_value(ex, st2, f, [v.alts[good][0]]):
+                yield o
+
+
+def m_int_try_from(ex, st, callee, args, dest_ty):
+    m = re.match(r"^<(\w+) as TryFrom<(\w+)>>::try_from$", callee)
+    T = m.group(1)
+    v = args[0]
+    okc = z3.simplify(in_range(v.e, T))
+    yield st, En("Result", z3.If(okc, z3.IntVal(0), z3.IntVal(1)), {"Ok": (Sc(v.e, T),), "Err": (Opaque("TryFromIntError"),)})
+
+
 def m_fn_call(ex, st, callee, args, dest_ty):
     """<F as Fn/FnMut/FnOnce<Args>>::call*(f, (args,))"""
     f = args[0]
@@ -825,6 +845,8 @@ BASE_MODELS = [
     (R(r"^Result::<.*>::ok$"), m_result_ok),
     (R(r"^Option::<.*>::ok_or::<.*>$"), m_ok_or),
     (R(r"^(Option|Result)::<.*>::map::<.*>$"), m_opt_map),
+    (R(r"^(Option|Result)::<.*>::map_or::<.*>$"), m_map_or),
+    (R(r"^<(i|u)(\d+|size) as TryFrom<(i|u)(\d+|size)>>::try_from$"), m_int_try_from),
     (R(r" as Fn(Mut|Once)?<.*>>::call(_mut|_once)?$"), m_fn_call),
     (R(r"^core::num::<impl i\d+>::abs$|^core::num::<impl isize>::abs$"), m_int_abs),
     (R(r"^<&?(i|u)(\d+|size) as (Div|Rem)(<.*>)?>::(div|rem)$"), m_int_divrem),
